@@ -72,6 +72,8 @@ def generate():
         out.append("        let start = Instant::now();\n        let mut cmd_string: &str;")
         out.append(body)
         out.append("        let _ = (cmd_string, start);\n        Ok(())\n    }")
+        if m.get("helper_methods"):
+            out.append(m["helper_methods"])
     out.append("}")
     write_if_changed(f"{DST}/cmd_arms.rs", "\n".join(out) + "\n")
     # driver functions (C09 a/b, C11 closeness decisions)
